@@ -2074,7 +2074,7 @@ public:
 
         for (size16_t i = 0; i < rule_count; ++i)
         {
-            s << i << "    ";
+            s << gi.rule_infos[i].r_idx << "    ";
             write_rule_diag_str(s, i);
             s << "\n";
         }
